@@ -110,6 +110,89 @@ CLAIMED["C16"] = dict(
     note="The 'only suffix/counter-headed additions' clause is false at full strength (known finding D11, contrived dictionary); it "
          "is checked by the oracle with that mechanism recorded in known_findings.json. " + KKC_NOTE, design="6/C16")
 
+SRV_NOTE = ("jsonrpsee/tokio/uuid/std Mutex+mpsc are modelled, not verified: each RPC handler body and each background action is one "
+            "atomic step; a handler panic closes the connection. Tied to the real binaries (release build, --cfg chokan_verif hooks "
+            "Verif.Dump / injectable clock / delay points) by running histories on both. Axioms: propext, Classical.choice, Quot.sound.")
+CLAIMED["C05"] = dict(
+    engine="lean+corr_server",
+    technique="Lean 4 totality theorems on the server state-machine model (steps that hold locks cannot panic) + adversarial RPC "
+              "histories on the real server compared step by step with the model, probes and a restart after every history",
+    text="C05_convert_total (any input incl. empty, any dictionary), C05_confirm_total, C05_register_no_partial_effect, "
+         "C05_noun_entry_applies are kernel-checked; the real server is driven with malformed/odd requests, probed after each "
+         "request (answer, no poisoned lock), restarted on its own user data and compared with the model throughout.",
+    note="PARTIAL: 'answered in bounded time' is observed (5 s deadline), not proved; cubic lattice construction on very long inputs "
+         "is outside the model. " + SRV_NOTE, design="6/C05")
+CLAIMED["C06"] = dict(
+    engine="lean+corr_kkc+corr_server",
+    technique="Lean 4 theorems on confirm/updateWord/expire and on node scores (unknown session/candidate change nothing, single "
+              "use, expiry boundary, count enters exactly one node score, context isolation) + differential runs at library and "
+              "server level (Verif.Dump, injected clock around the expiry boundary)",
+    text="Seven theorems kernel-checked on the model; re-ranking-only and score-rise are checked on the implementation's own "
+         "edge/node scores for every generated case; exact count changes per confirmation are checked on the real server.",
+    note="Untruncated-set equality with/without counts is checked by the oracle per case, not proved (needs C02's A* theorem). "
+         + SRV_NOTE, design="6/C06")
+CLAIMED["C07"] = dict(
+    engine="lean+corr_server+corr_dic",
+    technique="Lean 4 proofs that an applied word is found by look-up under its reading and that adding words never removes a "
+              "look-up result (induction on the map), guess conjugability by decide +kernel + registrations of every kind on the "
+              "real server with polling conversions of every conjugated form",
+    text="C07_added_word_found, C07_monotone, C07_guess_conjugable are kernel-checked; every conjugated form (computed by the real "
+         "dic crate and by the model) of every registration must be offered for its reading by the real server within 3 s.",
+    note="PARTIAL: 'within bounded time' is the updater getting scheduled (observed). Candidate-level visibility combines these "
+         "lemmas with C03/C04, which are themselves partial. " + SRV_NOTE, design="6/C07")
+CLAIMED["C08"] = dict(
+    engine="lean+corr_server",
+    technique="Lean 4 proofs: user.dic round trip for storable user dictionaries (from C10_file), accepted registrations are "
+              "storable, restart restores counts/user words/save directory, save is idempotent, the dictionary invariant holds at "
+              "start and is kept by the updater + save/restart histories on the real server with 48 ordered probe conversions",
+    text="Eight theorems kernel-checked; the real server is taken through mixed registration/confirmation histories, saved and "
+         "restarted twice, and every probe answer, Verif.Dump and the bytes of user.dic are compared.",
+    note="frequency.bin's postcard encoding is not modelled (compared through the real files/dumps). Compound learning records the "
+         "entry in the user dictionary before the updater applies it (and again when it does), so InvDict is not proved across "
+         "`confirm`; no answer change was observed. " + SRV_NOTE, design="6/C08")
+CLAIMED["C09"] = dict(
+    engine="lean+strace+fault-enumeration",
+    technique="Lean 4 theorem by kernel evaluation over every crash point of the extracted file-operation sequence (boundaries "
+              "and inside writes) + strace of the real save compared with that sequence + the real server restarted on every "
+              "materialised crash directory",
+    text="C09 (every crash state restores a complete old-or-new version of both files, saving continues) is kernel-checked over "
+         "saveOps regenerated from user_pref.rs; the traced system calls of a real save must equal saveOps; each crash directory "
+         "is restored by the real binary.",
+    note="Process death only (atomic rename, durable completed writes). File contents are abstract in the theorem "
+         "(old/new/torn/empty); byte-level cuts are exercised on the real files. " + SRV_NOTE, design="6/C09")
+CLAIMED["C13"] = dict(
+    engine="lean+corr_runtime",
+    technique="Lean 4 theorem over the task inventory extracted from main.rs (no never-yielding loop on an async worker, hence "
+              "serving for every worker count >= 1) + the real binary started with TOKIO_WORKER_THREADS = 1..16",
+    text="C13, C13_occupancy, C13_duties are kernel-checked over the regenerated inventory; each worker count's observation "
+         "(answers, registration applied, periodic save) is compared with the occupancy model's prediction.",
+    note="PARTIAL: tokio's scheduler and blocking pool are not modelled, only worker occupancy. " + SRV_NOTE, design="6/C13")
+CLAIMED["C14"] = dict(
+    engine="lean+corr_concurrent",
+    technique="Lean 4 proof that the extracted nested lock acquisitions respect one fixed order and that such an order excludes "
+              "every waiting cycle + concurrent clients (up to 32) with delay hooks against the real server",
+    text="C14_lock_order (decide over the regenerated lock edges), C14_no_deadlock (generic), C14_no_deadlock_here are "
+         "kernel-checked; concurrently, every request must complete and registrations must become visible atomically and "
+         "monotonically, confirmations must not be lost.",
+    note="PARTIAL: atomicity of each modelled step and the general linearizability clause are validated by the concurrent driver, "
+         "not proved. " + SRV_NOTE, design="6/C14")
+CLAIMED["C15"] = dict(
+    engine="lean+corr_concurrent",
+    technique="Lean 4 proofs on the state machine: the answering step stores the session, ids are fresh, other clients' "
+              "confirmations keep it, a registration is applied exactly once + back-to-back conversion/confirmation pairs from "
+              "1–32 concurrent clients on the real server",
+    text="C15_session_recorded, C15_sids_fresh_convert, C15_session_survives_other_confirm, C15_register_once are kernel-checked; "
+         "on the real server the learned count must equal the number of acknowledged confirmations in every configuration.",
+    note="PARTIAL: OS/tokio interleavings are sampled, not enumerated. " + SRV_NOTE, design="6/C15")
+CLAIMED["C20"] = dict(
+    engine="lean+corr_kkc+corr_server",
+    technique="Lean 4 proofs about to_string_with_affix on chains as the search returns them (three affix patterns, no-affix case) "
+              "and about confirm/applyEntry + oracle on every implementation candidate + the real session protocol with restart",
+    text="Seven theorems kernel-checked; for every generated candidate the extracted compound is compared with the expected one; "
+         "confirming affixed candidates on the real server must make the compound convertible, saved and restart-proof.",
+    note="The compound is recorded in the user dictionary twice (by the handler and by the updater) — harmless for the property. "
+         + SRV_NOTE, design="6/C20")
+
 NOT_YET = "machinery for this property is not built yet in this round (work in progress; see DESIGN.md section 9)"
 
 
